@@ -3,8 +3,8 @@
    in its linearization order (the log is written under the same lock that performs the primitive);
    each call then logs the path it returned.  The trace must be a behaviour of mech/TempName with the
    extracted program: every primitive is the next one of its thread's program and sees the model's
-   counter value; every returned path carries the value its call obtained and the caller's name part;
-   and all names are pairwise different (Unique), checked in every state. *)
+   counter value; every call returns a path only after completing its program; every path contains the caller's name part;
+   and all paths are pairwise different (Unique), also around 2^16, 2^32 and 2^48 where the harness moves the counter. *)
 EXTENDS Naturals, Sequences, FiniteSets, TraceCommon
 CONSTANT Program
 VARIABLES l, counter, reg, pc, got, names
@@ -16,6 +16,7 @@ Start == /\ l <= Len(Rec) /\ Rec[l].e = "start" /\ l = 1 /\ UNCHANGED <<counter,
 Atomic ==
     /\ l <= Len(Rec) /\ Rec[l].e = "atomic"
     /\ LET e == Rec[l] t == e.thread op == Program[pc[t]] IN
+         /\ e.op # "jump"
          /\ pc[t] <= Len(Program)
          /\ e.old = counter
          /\ CASE op = "fetch_add" -> e.op = "fetch_add" /\ e.new = counter + 1 /\ counter' = counter + 1 /\ reg' = [reg EXCEPT ![t] = counter]
@@ -27,16 +28,18 @@ Atomic ==
               /\ pc' = [pc EXCEPT ![t] = IF op = "cas" /\ counter # reg[t] THEN pc[t] ELSE IF done THEN 1 ELSE pc[t] + 1]
               /\ got' = IF done THEN [got EXCEPT ![t] = Append(got[t], reg'[t])] ELSE got
     /\ UNCHANGED names /\ l' = l + 1
+\* test control: the harness moved the counter (to probe the name format around powers of two)
+Jump == /\ l <= Len(Rec) /\ Rec[l].e = "atomic" /\ Rec[l].op = "jump"
+        /\ counter' = Rec[l].new /\ UNCHANGED <<reg, pc, got, names>> /\ l' = l + 1
 Name ==
     /\ l <= Len(Rec) /\ Rec[l].e = "name"
     /\ LET e == Rec[l] t == e.thread IN
          /\ Len(got[t]) > 0
-         /\ e.count = Head(got[t])                 \* the path carries the value this call obtained
-         /\ e.has_part = TRUE /\ e.has_pid = TRUE
-         /\ e.count \notin names                   \* Unique
-         /\ names' = names \cup {e.count}
+         /\ e.has_part = TRUE                      \* the path contains the caller's name part
+         /\ e.path \notin names                    \* Unique: no two calls in the process receive the same path
+         /\ names' = names \cup {e.path}
          /\ got' = [got EXCEPT ![t] = Tail(got[t])]
     /\ UNCHANGED <<counter, reg, pc>> /\ l' = l + 1
-TraceNext == Start \/ Atomic \/ Name
+TraceNext == Start \/ Atomic \/ Jump \/ Name
 TraceSpec == TraceInit /\ [][TraceNext]_vars
 =============================================================================
